@@ -88,6 +88,16 @@ def gen_case(ch, tier):
                          {'comb': ' ', 'c': bare(el.name, [])}]
         if ch.p(0.5):
             a, b = b, a
+    if ch.p(0.08):
+        # two alternatives that are unequal but hash alike (hash(-1) == hash(-2) in CPython): a list is a list of
+        # selectors, not of their hashes
+        import copy as _copy
+        base_ = g.complex_for(ch.pick(g.elems), 1) if ch.p(0.5) else [{'comb': None, 'c': {'tag': None, 'ids': [], 'classes': [], 'attrs': [], 'ps': []}}]
+        (a1, b1), (a2, b2) = ch.pick((((2, -1), (2, -2)), ((-1, 3), (-2, 3)), ((3, -2), (3, -1)), ((-2, 5), (-1, 5))))
+        name_ = ch.pick(('nth-child', 'nth-last-child', 'nth-of-type'))
+        a, b = _copy.deepcopy(base_), _copy.deepcopy(base_)
+        a[-1]['c']['ps'] = [q for q in a[-1]['c']['ps'] if q.get('p') not in S.NTH] + [{'p': name_, 'a': a1, 'b': b1, 'of': None}]
+        b[-1]['c']['ps'] = [q for q in b[-1]['c']['ps'] if q.get('p') not in S.NTH] + [{'p': name_, 'a': a2, 'b': b2, 'of': None}]
     x = g.describe(ch.pick(g.elems), 0, bare=True) if ch.p(0.6) else FG.gen_compound(ch, FGCFG, 1)
     junk = ch.pick(('', ' ', 'p >', 'div +', 'span ~ ', 'a > ', '/**/', 'input +')) if ch.p(0.3) else None
     return {'tree': recipe, 'flavour': flavour, 'A': a, 'B': b, 'X': x, 'ns': ch.pick(sorted(NS_MAPS)), 'junk': junk}, doc
